@@ -39,7 +39,7 @@ func genHistory(rng *rand.Rand, n int) []drv.Req {
 		l := locs[rng.Intn(3)]
 		id := ids[rng.Intn(3)]
 		r := drv.Req{Loc: l}
-		switch rng.Intn(12) {
+		switch rng.Intn(13) {
 		case 0, 1, 2:
 			r.Op, r.Id, r.Doc = "addFact", id, fmt.Sprintf(`{"k":"v%d","n":%d,"at":%q}`, rng.Intn(3), i, l)
 		case 3:
@@ -58,6 +58,15 @@ func genHistory(rng *rand.Rand, n int) []drv.Req {
 			r.Op, r.Id, r.On = "enable", "r"+id, rng.Intn(2) == 0
 		case 10:
 			r.Op, r.Id = "remRule", "r"+id
+		case 11:
+			switch rng.Intn(4) {
+			case 0: // the per-location cache TTL property (milliseconds); a value that is not a number is ignored
+				r.Op, r.Id, r.Doc = "addFact", "", []string{`{"!cacheTTL":3}`, `{"!cacheTTL":"soon"}`, `{"!cacheTTL":0}`}[rng.Intn(3)]
+			case 1:
+				r.Op = "clear"
+			default:
+				r.Op, r.Id = "getFact", "r"+id
+			}
 		default:
 			r.Op, r.Id = "getFact", "r"+id
 		}
